@@ -417,6 +417,7 @@ func runC05(r *Run) {
 		r.Case("includes", coq, obs, map[string]any{"files": srcs}, map[string]string{}, nontrivial)
 	}
 	c05LoopLeak(r)
+	c05PropsInReusedContent(r)
 	c05JSONLooking(r)
 }
 
@@ -565,6 +566,63 @@ func c05JSONLooking(r *Run) {
 			if err != nil || strings.TrimSpace(got) != strings.TrimSpace(v) {
 				r.Fail("a string prop that is not a JSON document does not reach the component as that string", sig,
 					map[string]any{"template": src, "component": `<i data-p="1">[{{ title }}]</i>`, "value": v, "received": got, "output": buf.String(), "err": fmt.Sprint(err)})
+			}
+		}
+	}
+}
+
+// an include written inside content that a component shows more than once (a slot inside a loop, two slots of one
+// name, a slot used in header and footer): EVERY use passes the component exactly the props of that use - the value
+// of that moment, with its type - whichever form the prop is written in
+func c05PropsInReusedContent(r *Run) {
+	comps := map[string]string{
+		"list.vuego":  `<ul><li v-for="item in items"><slot :item="item">none</slot></li></ul>`,
+		"twice.vuego": `<header><slot :item="first">none</slot></header><footer><slot :item="second">none</slot></footer>`,
+		"row.vuego":   `<span data-row="1">{{ row.name }}={{ row.n }}</span><em v-if="row.n > 1">big</em><u>{{ label }}</u>`,
+		"cell.vuego":  `<b data-cell="1">{{ item }}</b>`,
+	}
+	data := map[string]any{"items": []any{map[string]any{"name": "a", "n": 1}, map[string]any{"name": "b", "n": 2}, map[string]any{"name": "c", "n": 3}},
+		"first": map[string]any{"name": "f", "n": 5}, "second": map[string]any{"name": "s", "n": 0}, "words": []any{"x", "y", "z"}}
+	cases := []struct{ name, page, want string }{
+		{"bound-prop-in-loop-slot", `<template include="list.vuego" :items="items"><template v-slot="p"><template include="row.vuego" :row="p.item" label="L"></template></template></template>`,
+			`<ul><li><spandata-row="1">a=1</span><u>L</u></li><li><spandata-row="1">b=2</span><em>big</em><u>L</u></li><li><spandata-row="1">c=3</span><em>big</em><u>L</u></li></ul>`},
+		{"interpolated-prop-in-loop-slot", `<template include="list.vuego" :items="items"><template v-slot="p"><template include="row.vuego" :row="p.item" label="l-{{ p.item.name }}"></template></template></template>`,
+			`<ul><li><spandata-row="1">a=1</span><u>l-a</u></li><li><spandata-row="1">b=2</span><em>big</em><u>l-b</u></li><li><spandata-row="1">c=3</span><em>big</em><u>l-c</u></li></ul>`},
+		{"v-bind-prop-in-loop-slot", `<template include="list.vuego" :items="words"><template v-slot="{ item }"><template include="cell.vuego" v-bind:item="item"></template></template></template>`,
+			`<ul><li><bdata-cell="1">x</b></li><li><bdata-cell="1">y</b></li><li><bdata-cell="1">z</b></li></ul>`},
+		{"bound-prop-in-slot-used-twice", `<template include="twice.vuego" :first="first" :second="second"><template v-slot="p"><template include="row.vuego" :row="p.item" label="T"></template></template></template>`,
+			`<header><spandata-row="1">f=5</span><em>big</em><u>T</u></header><footer><spandata-row="1">s=0</span><u>T</u></footer>`},
+		{"shorthand-tag-in-loop-slot", `<template include="list.vuego" :items="items"><template v-slot="p"><row-c :row="p.item" label="S"></row-c></template></template>`,
+			`<ul><li><spandata-row="1">a=1</span><u>S</u></li><li><spandata-row="1">b=2</span><em>big</em><u>S</u></li><li><spandata-row="1">c=3</span><em>big</em><u>S</u></li></ul>`},
+	}
+	for _, c := range cases {
+		for _, entry := range []string{"render", "load"} {
+			m := fstest.MapFS{"page.vuego": &fstest.MapFile{Data: []byte(c.page)}}
+			for k, v := range comps {
+				m[k] = &fstest.MapFile{Data: []byte(v)}
+			}
+			m["components/RowC.vuego"] = &fstest.MapFile{Data: []byte(comps["row.vuego"])}
+			var buf bytes.Buffer
+			var err error
+			func() {
+				defer func() {
+					if x := recover(); x != nil {
+						err = fmt.Errorf("PANIC %v", x)
+					}
+				}()
+				opts := []vuego.LoadOption{vuego.WithComponents()}
+				if entry == "render" {
+					err = vuego.NewFS(m, opts...).Fill(data).RenderString(context.Background(), &buf, c.page)
+				} else {
+					err = vuego.NewFS(m, opts...).Fill(data).Load("page.vuego").Render(context.Background(), &buf)
+				}
+			}()
+			got := strings.Join(strings.Fields(buf.String()), "")
+			r.Eval("props-in-reused-content:"+c.name+":"+entry, true, nil)
+			r.Count("stream:props-in-reused-content(oracle only)")
+			if err != nil || got != c.want {
+				r.Fail("an include inside content that is shown more than once does not receive the props of that use", map[string]string{"oracle": "props-in-reused-content", "case": c.name, "entry": entry},
+					map[string]any{"page": c.page, "components": comps, "output": buf.String(), "expected_without_whitespace": c.want, "err": fmt.Sprint(err)})
 			}
 		}
 	}
